@@ -70,6 +70,7 @@ def decomposed(draw, kind, tier='quick', max_subs=3):
         'declare_names': draw(st.booleans()),
         # layout of every requirement text: comments before / after it, line breaks, with or without the final ';'
         'decor': draw(st.lists(st.integers(0, len(DECOR) - 1), min_size=4, max_size=4)) if draw(st.booleans()) else None,
+        'via_file': draw(st.sampled_from([False, False, False, True])),
     }
     if kind.startswith('dt'):
         n = draw(F.trace_lengths(10))
@@ -182,6 +183,13 @@ def build_modular(case, inline=False):
         # edited and parsed again
         pc = dict(case, formula=prev['formula'], subs=prev['subs'], consts=[], bound_const=None)
         pbodies, pmain, _ = modular_texts(pc, printer_for(kind))
+        was_req = prev.get('signal_was_requirement')
+        if was_req:
+            # a signal of the new text was the name of a requirement of the previous text (and is not declared through
+            # the API: the parser declares it when it meets it)
+            pbodies = list(pbodies) + [(was_req, pmain)]
+            pmain = was_req
+            declared = [v for v in declared if v != was_req]
         ptext = ' '.join('%s = %s;' % (n, t) for n, t in pbodies) + ' out = ' + pmain
         pused = [v for v in case['vars'] if v in F.fvars(from_json(prev['formula']))]
         if prev.get('mode') == 'redefine':
@@ -191,6 +199,24 @@ def build_modular(case, inline=False):
                          pastify=(kind == 'dt_on_past'))
         spec = build(base_kind, ptext, declared + [v for v in pused if v not in declared], consts=const_decl)
         spec.spec = text
+        spec.parse()
+        if kind == 'dt_on_past':
+            spec.pastify()
+        return spec
+    if case.get('via_file'):
+        # the text reaches the object through a file and the loader of the specification class
+        import os
+        import tempfile
+        from .runner import ROOT
+        spec = build(base_kind, text, declared, consts=const_decl, subspecs=subspecs, parse=False)
+        os.makedirs(os.path.join(ROOT, '.work'), exist_ok=True)
+        fd, path = tempfile.mkstemp(prefix='spec-', suffix='.stl', dir=os.path.join(ROOT, '.work'))
+        try:
+            with os.fdopen(fd, 'w') as fh:
+                fh.write(text)
+            spec.spec = spec.get_spec_from_file(path)
+        finally:
+            os.unlink(path)
         spec.parse()
         if kind == 'dt_on_past':
             spec.pastify()
